@@ -231,3 +231,45 @@ Example transfer_example :
    r_refs (transfer u (push u d0 0 3 false) [TAdd [5; 4]; TSetRef 0 (Some 1) 4 true]))  (* stale CAS *)
   = ([(0, 1)], [1; 2], [(0, 3)], [3; 1; 2], [(0, 3)]).
 Proof. vm_compute. reflexivity. Qed.
+
+(* ---- the oracle holds of the model's own observation, and of every state the model's transfers reach ---- *)
+From Dolt Require Import C35.Corr.
+
+Lemma inclb_In : forall a b, Spec.inclb a b = true -> forall x, In x a -> In x b.
+Proof.
+  intros a b H x Hx. unfold Spec.inclb in H. rewrite forallb_forall in H. apply memb_In. apply H. exact Hx.
+Qed.
+
+Theorem oracle_on_model : forall i,
+  model_complete i = true -> i_points i = [] -> oracle i (model_obs i) = true.
+Proof.
+  intros i Hm Hp. unfold oracle, model_obs. rewrite Hp.
+  cbn [forallb o_refs_match o_closed o_clone_equal o_pull_equal o_nonff_refused o_force_ok o_race_ok].
+  rewrite !andb_true_r. rewrite forallb_forall. intros a Ha. apply data_complete_spec. intros x Hx.
+  unfold model_complete, model_remote in Hm.
+  destruct (pull_need (i_universe i) [] (i_heads i)) as [need|] eqn:En; [|discriminate Hm].
+  apply andb_prop in Hm. destruct Hm as [Hsub _].
+  assert (Hc : sink_closed (i_universe i) []) by (intros y z Hy; discriminate Hy).
+  assert (Hr : reach (i_universe i) (i_heads i) x).
+  { clear - Ha Hx. induction Hx as [y Hy | y z Hy IH Hz].
+    - destruct Hy as [Hy|[]]. subst. apply reach_start. exact Ha.
+    - apply reach_step with (x := y); assumption. }
+  pose proof (pull_complete _ _ _ _ Hc En x Hr) as H. rewrite app_nil_r in H.
+  apply has_In. apply (inclb_In _ _ Hsub). apply has_In. exact H.
+Qed.
+
+(* every state reached by the model's transfer steps from a closed, backed destination passes the check that the
+   harness applies to the implementation's destination after each injected failure *)
+Theorem point_ok_of_transfer : forall u ts d k,
+  sink_closed u (r_store d) -> refs_present d ->
+  let d' := transfer u d (firstn k ts) in
+  point_ok u (r_store d', map snd (r_refs d')) = true.
+Proof.
+  intros u ts d k Hc Hp d'. subst d'.
+  destruct (ref_after_data u ts d Hc Hp k) as [Hb Hcl].
+  unfold point_ok. cbn [fst snd]. apply andb_true_intro. split.
+  - rewrite forallb_forall. intros a Ha. apply in_map_iff in Ha. destruct Ha as [[n a'] [Heq Hin]].
+    cbn [snd] in Heq. subst a'. apply data_complete_spec. intros x Hx. exact (Hb n a Hin x Hx).
+  - unfold closedb. rewrite forallb_forall. intros x Hx. rewrite forallb_forall. intros y Hy.
+    apply (Hcl x y); [apply has_In; exact Hx | exact Hy].
+Qed.
